@@ -71,6 +71,7 @@ func (c *C14) variants() map[string][]c14Variant {
 		{"amount", "minter", ttc(func(e *mhubtypes.TransferToChainEvent) { e.Amount = sdk.NewInt(0x3202 * 1000) })},
 		{"fee", "minter", ttc(func(e *mhubtypes.TransferToChainEvent) { e.Fee = sdk.NewInt(11) })},
 		{"fee(zero)", "minter", ttc(func(e *mhubtypes.TransferToChainEvent) { e.Fee = sdk.NewInt(0) })},
+		{"fee(absent on the wire)", "minter", ttc(func(e *mhubtypes.TransferToChainEvent) { e.Fee = sdk.Int{} })},
 		{"sender", "minter", ttc(func(e *mhubtypes.TransferToChainEvent) { e.Sender = s2[2:] })},
 		{"sender(0x-prefixed)", "minter", ttc(func(e *mhubtypes.TransferToChainEvent) { e.Sender = s1 })},
 		{"sender(0x-prefixed,other)", "minter", ttc(func(e *mhubtypes.TransferToChainEvent) { e.Sender = s2 })},
@@ -98,6 +99,11 @@ func (c *C14) variants() map[string][]c14Variant {
 		{"txhash", "ethereum", bee(func(e *mhubtypes.BatchExecutedEvent) { e.TxHash = "0xbb" })},
 		{"feepaid", "ethereum", bee(func(e *mhubtypes.BatchExecutedEvent) { e.FeePaid = sdk.NewInt(5_000_000) })},
 		{"feepayer", "ethereum", bee(func(e *mhubtypes.BatchExecutedEvent) { e.FeePayer = r2 })},
+		{"feepaid(zero)", "ethereum", bee(func(e *mhubtypes.BatchExecutedEvent) { e.FeePaid = sdk.NewInt(0) })},
+		{"feepaid(absent on the wire)", "ethereum", bee(func(e *mhubtypes.BatchExecutedEvent) { e.FeePaid = sdk.Int{} })},
+		// optional fields shifted across their boundary: fee 31000 / no payer  vs  no fee / payer "31000"
+		{"feepaid 31000, empty feepayer", "ethereum", bee(func(e *mhubtypes.BatchExecutedEvent) { e.FeePaid = sdk.NewInt(31000); e.FeePayer = "" })},
+		{"feepaid absent, feepayer \"31000\"", "ethereum", bee(func(e *mhubtypes.BatchExecutedEvent) { e.FeePaid = sdk.Int{}; e.FeePayer = "31000" })},
 	}
 	// ---- ContractCallExecutedEvent
 	cce := func(mod func(e *mhubtypes.ContractCallExecutedEvent)) *mhubtypes.ContractCallExecutedEvent {
@@ -241,6 +247,28 @@ func (c *C14) wrapPairs() [][3]interface{} {
 	return out
 }
 
+// cloneEvent copies the event struct (PackEvent / Marshal normalise absent integers in place).
+func cloneEvent(e mhubtypes.ExternalEvent) mhubtypes.ExternalEvent {
+	switch x := e.(type) {
+	case *mhubtypes.SendToHubEvent:
+		c := *x
+		return &c
+	case *mhubtypes.TransferToChainEvent:
+		c := *x
+		return &c
+	case *mhubtypes.BatchExecutedEvent:
+		c := *x
+		return &c
+	case *mhubtypes.ContractCallExecutedEvent:
+		c := *x
+		return &c
+	case *mhubtypes.SignerSetTxExecutedEvent:
+		c := *x
+		return &c
+	}
+	panic(fmt.Sprintf("cloneEvent: %T", e))
+}
+
 type C14 struct {
 	bridge *Bridge
 }
@@ -270,6 +298,13 @@ func (c *C14) prestate(in *hub.Instance) *hub.Snapshot {
 }
 
 func (c *C14) effect(in *hub.Instance, pre *hub.Snapshot, v c14Variant) string {
+	// the event that is applied is the one stored in the vote record: recordEventVote packs it (PackEvent), which
+	// normalises an absent integer field to zero in place
+	ev := cloneEvent(v.Ev)
+	if _, err := mhubtypes.PackEvent(ev); err != nil {
+		return "pack error: " + err.Error()
+	}
+	v.Ev = ev
 	in.Restore(pre)
 	ctx := in.Ctx()
 	cctx, write := ctx.CacheContext()
@@ -330,6 +365,24 @@ func (c *C14) run() c14Result {
 			Detail: fmt.Sprintf("%s variants %q and %q have the same Hash() %x but different effect (or type): %v vs %v", typ, a.Name, b.Name, ha.Bytes()[:8], a.Ev, b.Ev)})
 	}
 	vs := c.variants()
+	// a claim has ONE identifier: the id a vote is looked up by (before the record is stored) must be the id the
+	// record is stored under (after PackEvent normalised the event), otherwise a later identical claim starts a fresh
+	// record over the stored one
+	for typ, l := range vs {
+		for _, v := range l {
+			before := fmt.Sprintf("%x", v.Ev.Hash().Bytes())
+			same := cloneEvent(v.Ev)
+			if _, err := mhubtypes.PackEvent(same); err != nil {
+				continue
+			}
+			after := fmt.Sprintf("%x", same.Hash().Bytes())
+			res.pairs++
+			if before != after {
+				res.violations = append(res.violations, engine.Violation{Property: "C14", Rule: "claim_id_changes_when_the_vote_record_is_stored", Site: typ + "." + v.Name,
+					Detail: fmt.Sprintf("%s variant %q: Hash() is %s when the vote is looked up and %s once the event has been packed into the vote record; votes for one event land in different records (a later claim overwrites the stored record)", typ, v.Name, before[:12], after[:12])})
+			}
+		}
+	}
 	var types []string
 	for t := range vs {
 		types = append(types, t)
